@@ -118,6 +118,19 @@ M = [
   "\tp = victim->parent;\n\tif (p == an)\n\t\tp = victim;",
   "\tp = victim->parent;",
   ["C16"], "balance: rebalancing starts at the removed node when the victim was its child"),
+ # parent-pointer surgery (noticed by the monitor's parent check and, field by field, by the pointer-level stage of C16)
+ ("avl_rotr_no_d_parent", "iv_avl.c",
+  "\tb->right = d;\n\tb->parent = d->parent;\n\td->parent = b;\n\trecalc_height(b);",
+  "\tb->right = d;\n\tb->parent = d->parent;\n\trecalc_height(b);",
+  ["C16"], "traversal / parent links: the old subtree root keeps its old parent after a right rotation"),
+ ("avl_victim_children_not_reparented", "iv_avl.c",
+  "\tif (victim->left != NULL)\n\t\tvictim->left->parent = victim;\n\tif (victim->right != NULL)\n\t\tvictim->right->parent = victim;\n",
+  "\tif (victim->left != NULL)\n\t\tvictim->left->parent = victim;\n",
+  ["C16"], "parent links: the right child moved under the replacement node still names the removed node as parent"),
+ ("avl_replace_reference_wrong_side", "iv_avl.c",
+  "\t\tif (an->parent->left == an)\n\t\t\treturn &an->parent->left;\n\t\telse\n\t\t\treturn &an->parent->right;",
+  "\t\tif (an->parent->left == an)\n\t\t\treturn &an->parent->right;\n\t\telse\n\t\t\treturn &an->parent->left;",
+  ["C16"], "find_reference returns the sibling slot: the wrong child pointer of the parent is overwritten"),
 
  # ---- C17: iv_fd_pump (src/iv_fd_pump.c) -----------------------------------------------------------------------
  ("pump_no_memmove", "iv_fd_pump.c",
